@@ -9,12 +9,13 @@ package fs
 //@ -- File.Sync refines types.WritableFile.Sync: fsync(file) and, the first time
 //@ -- only, fsync of the containing directory, before nil is returned.
 //@ func (*File).Sync
-//@   props C07
+//@   props C07 C10
 //@   assigns f.new
 //@   ensures[C07.sync-file] result == nil ==> traced("fsync(file)")
 //@   ensures[C07.first-sync-syncs-dir] result == nil && old(f.new) == 0 ==> traced("fsync(file)", "open(dir)", "fsync(dir)")
 //@   ensures[C07.sync-marks-linked] result == nil ==> f.new == 1
 //@   ensures[C07.failed-file-sync-keeps-new] !traced("open(dir)") && result != nil ==> f.new == old(f.new)
+//@   ensures[C07.failed-sync-is-retried] result != nil ==> f.new == old(f.new)
 
 //@ func (*FS).Create
 //@   props C07
